@@ -132,6 +132,29 @@ def async_extra_scenarios():
             yield plan2
 
 
+def async_spoil_scenarios():
+    """the wake-up re-check of a parked BRPOPLPUSH can itself fail (its destination became a non-list while it waited): the error is the one reply of the
+    pop, as on the synchronous front-end; the element stays in the source; requests pipelined behind it are answered afterwards"""
+    for blk in ([b'brpoplpush', b'l0', b'dst', b'0'], [b'brpoplpush', b'l0', b'dst', b'5']):
+        for spoil in ([[b'set', b'dst', b'str']], [[b'sadd', b'dst', b'm']], [[b'multi'], [b'hset', b'dst', b'f', b'v'], [b'rpush', b'l0', b'early'], [b'exec']]):
+            for behind in ([], [[b'ping']], [[b'llen', b'l0']]):
+                def plan(s, rng, blk=blk, spoil=spoil, behind=behind):
+                    yield ('open', 1)
+                    yield ('open', 2)
+                    yield ('cmd', 1, list(blk))
+                    for b in behind:
+                        yield ('cmdq', 1, list(b))
+                    for f in spoil:
+                        yield ('cmd', 2, list(f))
+                    yield ('cmd', 2, [b'rpush', b'l0', b'a'])
+                    yield ('aadv', 0.01)
+                    yield ('cmd', 2, [b'lrange', b'l0', b'0', b'-1'])
+                    yield ('cmd', 2, [b'type', b'dst'])
+                    if not s.impl.socks[1]._paused:
+                        yield ('cmd', 1, [b'ping'])
+                yield plan
+
+
 def plan_async_tx(length):
     """MULTI/EXEC on the asyncio front-end, with blocking pops (which must not block) and errors inside the queue"""
     def plan(s, rng):
